@@ -441,7 +441,7 @@ def shrink(spec):
         paired.update((p["a"], p["b"]))
     order = [i for i in range(n) if i not in paired] + [i for i in range(n) if i in paired]
     if n > 1:
-        # first try to keep only one job / one pair / one probe
+        # first try to keep only one job (a probe is one job) or only one pair
         for i in range(n):
             s = spec
             for k in sorted(set(range(n)) - {i}, reverse=True):
@@ -454,11 +454,6 @@ def shrink(spec):
                 for i in sorted(set(range(n)) - keep, reverse=True):
                     s = _without_job(s, i)
                 yield s
-        for p in spec["probes"]:
-            s = spec
-            for i in sorted(set(range(n)) - {p["job"]}, reverse=True):
-                s = _without_job(s, i)
-            yield s
         if n > 3:
             for i in order:
                 yield _without_job(spec, i)
